@@ -2,9 +2,9 @@
 # usage: merge_branch.sh <branch> — merge an agent branch, resolving the generated index files by regeneration
 cd "$(dirname "$0")/.."
 git stash -q 2>/dev/null; git merge --no-edit "$1" >/dev/null 2>&1
-for f in MANIFEST.json known_findings.json lean/Dcg.lean lean/Dcg/Driver/All.lean evidence/C01.json evidence/C10.json lean/Dcg/Gen/EscTables.lean lean/Dcg/Gen/Templates.lean; do git checkout --ours -- "$f" 2>/dev/null; done
+for f in THEOREMS.md MANIFEST.json known_findings.json lean/Dcg.lean lean/Dcg/Driver/All.lean evidence/C01.json evidence/C10.json lean/Dcg/Gen/EscTables.lean lean/Dcg/Gen/Templates.lean; do git checkout --ours -- "$f" 2>/dev/null; done
 for f in $(git diff --name-only --diff-filter=U | grep "^evidence/"); do git checkout --theirs -- "$f"; done
-python3 tools/regen_index.py; for f in MANIFEST.json known_findings.json lean/Dcg.lean lean/Dcg/Driver/All.lean; do git add "$f"; done; git add evidence lean/Dcg/Gen 2>/dev/null
+python3 tools/regen_index.py; python3 tools/summarize.py > THEOREMS.md 2>/dev/null; for f in THEOREMS.md MANIFEST.json known_findings.json lean/Dcg.lean lean/Dcg/Driver/All.lean; do git add "$f"; done; git add evidence lean/Dcg/Gen 2>/dev/null
 if git diff --name-only --diff-filter=U | grep -v "^evidence/" | grep -q .; then echo "UNRESOLVED:"; git diff --name-only --diff-filter=U; exit 1; fi
 git add -A
 if git diff --cached --name-only --diff-filter=U | grep -q .; then echo "UNRESOLVED:"; git diff --name-only --diff-filter=U; exit 1; fi
